@@ -105,7 +105,7 @@ fn unknown_opcode<const L: usize>() {
     } else {
         check_outcome(&mut w, &mut o, 2, AC::Skip);
     }
-    assert!(unsafe { CV_CALLS } == 0);
+    assert!(unsafe { crate::stubs::G.cv_calls } == 0);
     kani::cover!(o.err.is_none());
     kani::cover!(o.err == Some(ErrorCode::CostExceeded));
     kani::cover!(o.err == Some(ErrorCode::InvalidConditionOpcode));
